@@ -126,7 +126,14 @@ func grid(f func(a int, b bool, p *dep.T, s []int, m map[string]*dep.T, e error,
 							for xi := 0; xi < 6; xi++ {
 								for _, u := range []uintptr{0, 1} {
 									for pei := 0; pei < 2; pei++ {
-										dep.GP, dep.GS, dep.GE, dep.Sink = nil, nil, nil, 0
+										// package-level state varies with the grid point (the analysis must be sound for any state)
+										dep.GP, dep.GS, dep.GE, dep.GX, dep.HX.X, dep.Sink = nil, nil, nil, nil, nil, 0
+										switch (a + pi + si + xi) % 3 {
+										case 1:
+											dep.GP, dep.GS, dep.GE, dep.GX, dep.HX.X = &dep.T{}, []int{1}, &dep.E{}, &dep.T{}, 1
+										case 2:
+											dep.GE, dep.GX, dep.HX.X = (*dep.E)(nil), (*dep.T)(nil), (*dep.E)(nil)
+										}
 										var p *dep.T
 										switch pi {
 										case 1:
